@@ -134,13 +134,13 @@ def run(ctx):
             ctx.note("strict invariant %s holds in the model (no counterexample to replay)" % inv)
     # 5. simulated behaviours (the model's own history variable)
     sim = ctx.tlc("bitswap/MCBitswap.tla", "bitswap/MCBitswap_sim.cfg", count=False, workers=4, timeout=300, deadlock=False,
-                  simulate="num=%d" % (120 if ctx.quick else 1500), depth=60, seed=ctx.seed)
+                  simulate="num=%d" % (150 if ctx.quick else 2000), depth=70, seed=ctx.seed)
     seen = set()
     want_n = 40 if ctx.quick else 400
     k = 0
-    for h in sim.printed.get("BEHAVIOUR", []):
-        if not isinstance(h, list):
-            continue
+    hs = [h for h in sim.printed.get("BEHAVIOUR", []) if isinstance(h, list)]
+    hs.sort(key=lambda h: -len(h))      # a printed history extends earlier prints of the same run: longest first
+    for h in hs:
         key = json.dumps([(s.get("a"), s.get("f"), s.get("t"), s.get("m")) for s in h], sort_keys=True)
         # a printed history extends earlier ones of the same run: keep maximal, interesting ones
         acts = [s["a"] for s in h]
